@@ -10,5 +10,6 @@ import VfsModel.Embedded
 import VfsModel.Fs
 import VfsModel.Handle
 import VfsModel.Leaf
+import VfsModel.OverlayConc
 import VfsModel.Path
 import VfsModel.PathOps
